@@ -100,3 +100,144 @@ func Snap(rings [][]P2, q float64) {
 		}
 	}
 }
+
+// Placed is a generated polygonal operand with its construction data.
+type Placed struct {
+	G      GJ
+	Cx, Cy float64 // centre of first member
+	R      float64
+	Rin    float64      // inradius of first member's shell
+	Holes  [][3]float64 // holes of first member
+}
+
+// GenPolygonal draws a valid operand of the given kind (Polygon | MultiPolygon | Bounds) centred at (cx,cy) with circumradius R.
+func GenPolygonal(t *rapid.T, kind string, cx, cy, R float64, snap bool) Placed {
+	p := Placed{Cx: cx, Cy: cy, R: R}
+	switch kind {
+	case "Bounds":
+		hw, hh := R*rapid.Float64Range(0.2, 1).Draw(t, "hw"), R*rapid.Float64Range(0.2, 1).Draw(t, "hh")
+		p.G = GJ{T: "Bounds", Pts: []P2{MkP(cx-hw, cy-hh), MkP(cx+hw, cy+hh)}}
+		p.Rin = math.Min(hw, hh)
+		if snap {
+			Snap([][]P2{p.G.Pts}, 1.0/1024)
+		}
+	case "Polygon", "MultiPolygon":
+		nm := 1
+		if kind == "MultiPolygon" {
+			nm = rapid.IntRange(1, 3).Draw(t, "nmembers")
+		}
+		var polys [][][]P2
+		for m := 0; m < nm; m++ {
+			mcx := cx + float64(m)*2.5*R
+			rings, holes := StarPolygon(t, mcx, cy, R, 3)
+			if m == 0 {
+				p.Rin = Inradius(rings[0], cx, cy)
+				p.Holes = holes
+			}
+			if snap {
+				Snap(rings, 1.0/1024)
+			}
+			for i := range rings {
+				rings[i] = Respell(t, rings[i])
+			}
+			polys = append(polys, rings)
+		}
+		if kind == "Polygon" {
+			p.G = GJ{T: "Polygon", Rings: polys[0]}
+		} else {
+			p.G = GJ{T: "MultiPolygon", Polys: polys}
+		}
+	}
+	return p
+}
+
+// PolysOf lists the polygons (rings) of a Polygon / MultiPolygon / Bounds GJ.
+func PolysOf(g GJ) [][][]P2 {
+	switch g.T {
+	case "Polygon":
+		return [][][]P2{g.Rings}
+	case "MultiPolygon":
+		return g.Polys
+	case "Bounds":
+		mn, mx := g.Pts[0], g.Pts[1]
+		return [][][]P2{{{mn, {mx[0], mn[1]}, mx, {mn[0], mx[1]}}}}
+	}
+	return nil
+}
+
+// GrowLine draws a line that is simple by construction: each new segment is redrawn (not the case) while it comes
+// too close to the existing line.
+func GrowLine(t *rapid.T, n int, style string) []P2 {
+	x, y := rapid.Float64Range(-10, 10).Draw(t, "x0"), rapid.Float64Range(-10, 10).Draw(t, "y0")
+	line := []P2{MkP(x, y)}
+	heading := rapid.Float64Range(0, 2*math.Pi).Draw(t, "h0")
+	rad := 0.5
+	for len(line) < n {
+		ok := false
+		for try := 0; try < 6 && !ok; try++ {
+			var nx, ny float64
+			switch style {
+			case "walk":
+				heading += rapid.Float64Range(-2.6, 2.6).Draw(t, "turn")
+				l := rapid.Float64Range(0.2, 3).Draw(t, "len")
+				nx, ny = x+l*math.Cos(heading), y+l*math.Sin(heading)
+			case "spiral":
+				heading += rapid.Float64Range(0.3, 1.2).Draw(t, "dtheta")
+				rad *= rapid.Float64Range(1.0, 1.25).Draw(t, "grow")
+				nx, ny = float64(line[0][0])+rad*math.Cos(heading), float64(line[0][1])+rad*math.Sin(heading)
+			case "inspiral":
+				heading += rapid.Float64Range(0.3, 1.2).Draw(t, "dtheta")
+				rad = 6 * math.Pow(rapid.Float64Range(0.85, 0.99).Draw(t, "shrink"), float64(len(line)))
+				nx, ny = float64(line[0][0])+6-rad*math.Cos(heading), float64(line[0][1])+rad*math.Sin(heading)
+			case "zigzag":
+				nx = x + rapid.Float64Range(0.1, 1).Draw(t, "dx")
+				amp := rapid.Float64Range(0.05, 2).Draw(t, "amp")
+				if len(line)%2 == 0 {
+					amp = -amp
+				}
+				ny = float64(line[0][1]) + amp
+			default: // hook: a long run followed by a tail that curls back across the chord
+				l := rapid.Float64Range(0.2, 3).Draw(t, "len")
+				if len(line) > n/2 {
+					heading += rapid.Float64Range(0.4, 1.4).Draw(t, "curl")
+				} else {
+					heading += rapid.Float64Range(-0.4, 0.4).Draw(t, "wiggle")
+				}
+				nx, ny = x+l*math.Cos(heading), y+l*math.Sin(heading)
+			}
+			cand := MkP(nx, ny)
+			if SegClear(line, cand, 1e-3) {
+				line = append(line, cand)
+				x, y = nx, ny
+				ok = true
+			}
+		}
+		if !ok {
+			break
+		}
+	}
+	return line
+}
+
+// SegClear: the new segment last->cand stays farther than margin from every earlier segment except its neighbour,
+// which it may only touch at the shared vertex.
+func SegClear(line []P2, cand P2, margin float64) bool {
+	n := len(line)
+	last := line[n-1]
+	if DistPtSeg(cand, last, last) <= margin {
+		return false
+	}
+	for i := 0; i+1 < n; i++ {
+		a, b := line[i], line[i+1]
+		if i+1 == n-1 {
+			if DistPtSeg(cand, a, b) <= margin || DistPtSeg(a, last, cand) <= margin {
+				return false
+			}
+			continue
+		}
+		if SegSegDist(a, b, last, cand) <= margin {
+			return false
+		}
+	}
+	return true
+}
